@@ -162,7 +162,7 @@ private:
 
   CPPToken get_quoted_char(int c);
   CPPToken get_quoted_string(int c);
-  CPPToken get_identifier(int c);
+  CPPToken get_identifier(int c, bool no_expand = false);
   CPPToken get_literal(int token, YYLTYPE loc, const std::string &str,
                        const YYSTYPE &result = YYSTYPE());
   CPPToken expand_manifest(const CPPManifest *manifest, const YYLTYPE &loc);
